@@ -155,6 +155,7 @@ def meta_doc(name=b"t", piece_length=4, files=None, length=None, nhashes=None, e
     total = length if length is not None else sum(f[0] for f in (files or []))
     if nhashes is None:
         nhashes = ceil_div(total, piece_length) if piece_length > 0 else 0
+        assert nhashes <= 4096, "generator bug: document with %d hashes" % nhashes
     if hashes is None:
         hashes = b"".join(fake_hash(i) for i in range(nhashes))
     info.append((b"name", name))
@@ -251,7 +252,8 @@ def gen_meta(rng):
         kw["files"] = [(U64 - 1, [b"big1"]), (rng.choice([1, 2, U64 - 1]), [b"big2"])]
         kw["piece_length"] = rng.choice([2**63, 2**62, U64 - 1]); kw["nhashes"] = rng.choice([2, 3, 4, 5]); tag = "sum exceeds u64"
     elif defect == 16:
-        kw.pop("files", None); kw["length"] = rng.choice([U64 - 1, 2**63, 2**40]); kw["piece_length"] = rng.choice([2**62, 2**63, 2**39, U64 - 1])
+        kw.pop("files", None); kw["length"] = rng.choice([U64 - 1, 2**63, 2**40])
+        kw["piece_length"] = max(1, kw["length"] // rng.range(1, 5) + rng.range(0, 1))
         tag = "huge single file, few pieces"
     doc = meta_doc(extra_root=extra_root, extra_info=extra_info, **kw)
     data = benc(doc)
